@@ -358,7 +358,13 @@ impl Writer {
                 Ok(Ok(())) => {},
                 Ok(Err(viol)) => { drop_quietly(w); finish(session, stats); return Err(viol); },
                 Err(p) => {
-                    if op.is_push() { tr.push_panicked = true; tr.reported.push(format!("op {} ({:?}) panicked: {}", i, op, p)); }
+                    if op.is_push() && !open_model && self.fault.is_none() {
+                        // Refusing a push into a writer that was closed is not a failure report and says nothing
+                        // false; what the statement rules out is accepting the push and miscounting it.
+                        tr.push_panicked = true;
+                        stats.probe("push after close() refused");
+                    }
+                    else if op.is_push() { tr.push_panicked = true; tr.reported.push(format!("op {} ({:?}) panicked: {}", i, op, p)); }
                     else { drop_quietly(w); finish(session, stats); return Err(v("query-panic", site, format!("op {} ({:?}) panicked: {}", i, op, p))); }
                 },
             }
